@@ -15,12 +15,24 @@ use std::time::Duration;
 pub struct WakeFlag {
   pub o: u32,
   pub flag: AtomicBool,
+  /// a waker that was replaced by a re-poll with another waker is stale: waking it
+  /// does not count as waking the operation (C06: re-polls with a different waker)
+  pub stale: AtomicBool,
+}
+impl WakeFlag {
+  pub fn new(o: u32) -> Arc<WakeFlag> {
+    Arc::new(WakeFlag { o, flag: AtomicBool::new(false), stale: AtomicBool::new(false) })
+  }
 }
 impl Wake for WakeFlag {
   fn wake(self: Arc<Self>) {
     self.wake_by_ref()
   }
   fn wake_by_ref(self: &Arc<Self>) {
+    if self.stale.load(Ordering::SeqCst) {
+      hist::push(serde_json::json!({"k":"wake_stale","o":self.o}));
+      return;
+    }
     self.flag.store(true, Ordering::SeqCst);
     hist::rec_wake(self.o);
   }
@@ -77,6 +89,7 @@ struct St {
   len: usize,
   /// the estimate may be off (a polled future was cancelled): avoid blocking calls
   uncertain: bool,
+  max_futs: usize,
 }
 
 impl St {
@@ -142,6 +155,7 @@ pub fn run_program(cfg: &Cfg) {
     cap,
     len: 0,
     uncertain: false,
+    max_futs: 3 + (cfg.seed % 3) as usize,
   };
   hist::rec_new(fl.kind, cap, &[1], &[2], &cfg.flavour, &cfg.kf);
 
@@ -209,7 +223,7 @@ fn step(st: &mut St, cfg: &Cfg) {
   // poll / drop pending futures with some priority so they do not pile up
   if !st.futs.is_empty() {
     let w = if p == "async" { 45 } else { 30 };
-    if roll < w || st.futs.len() >= 3 {
+    if roll < w || st.futs.len() >= st.max_futs {
       let woken: Vec<usize> = (0..st.futs.len()).filter(|&i| st.futs[i].wf.flag.load(Ordering::SeqCst)).collect();
       let i = if !woken.is_empty() && st.rng.random_bool(0.7) { *pick(&mut st.rng, &woken) } else { st.rng.random_range(0..st.futs.len()) };
       if st.rng.random_range(0..100) < 22 {
@@ -381,7 +395,7 @@ fn send_op(st: &mut St, i: usize, cfg: &Cfg) {
   let o = new_op(st);
   if let Some(fop) = op.strip_prefix("f:") {
     hist::rec_call(o, hid, fop, &ids, 0, true);
-    let wf = Arc::new(WakeFlag { o, flag: AtomicBool::new(false) });
+    let wf = WakeFlag::new(o);
     let fut = match st.hs[i].hd.as_mut() {
       Some(Hd::Tx(t)) => t.start(fop, vs),
       _ => unreachable!(),
@@ -415,10 +429,14 @@ fn recv_op(st: &mut St, i: usize, cfg: &Cfg) {
     Some(Hd::Rx(r)) => r.info(),
     _ => return,
   };
-  if info.fut_excl && st.hs[i].futs > 0 {
+  let real_futs = st.futs.iter().any(|f| f.h == i);
+  if info.fut_excl && real_futs {
     return;
   }
-  if st.hs[i].stream_op.is_some() {
+  // a Stream that returned Pending is only a registration: between two poll_next calls
+  // the handle is free again, so non-blocking calls on it are ordinary use
+  let stream_pending = st.hs[i].stream_op.is_some();
+  if stream_pending && st.rng.random_bool(0.6) {
     poll_stream(st, i);
     return;
   }
@@ -452,7 +470,10 @@ fn recv_op(st: &mut St, i: usize, cfg: &Cfg) {
       ops.push("recv_batch_mut");
     }
   }
-  let op = *pick(&mut st.rng, &ops);
+  let mut op = *pick(&mut st.rng, &ops);
+  if stream_pending && !op.starts_with("try") {
+    op = "try_recv";
+  }
   let max = if op.contains("batch") { st.rng.random_range(1..=5) } else { 1 };
   let pending_recv = st.futs.iter().any(|f| !f.is_send) || st.hs.iter().any(|h| h.stream_op.is_some());
   let sure = st.hs[i].closed || st.live(true) == 0 || (st.len > 0 && !st.uncertain && !pending_recv && !st.bc_multi());
@@ -463,7 +484,7 @@ fn recv_op(st: &mut St, i: usize, cfg: &Cfg) {
   let o = new_op(st);
   if op == "s:poll_next" {
     hist::rec_call(o, hid, "poll_next", &[], 1, true);
-    let wf = Arc::new(WakeFlag { o, flag: AtomicBool::new(false) });
+    let wf = WakeFlag::new(o);
     st.hs[i].stream_op = Some((o, wf));
     st.hs[i].futs += 1;
     poll_stream(st, i);
@@ -471,7 +492,7 @@ fn recv_op(st: &mut St, i: usize, cfg: &Cfg) {
   }
   if let Some(fop) = op.strip_prefix("f:") {
     hist::rec_call(o, hid, fop, &[], max, true);
-    let wf = Arc::new(WakeFlag { o, flag: AtomicBool::new(false) });
+    let wf = WakeFlag::new(o);
     let fut = match st.hs[i].hd.as_mut() {
       Some(Hd::Rx(r)) => r.start(fop, max),
       _ => unreachable!(),
@@ -524,7 +545,8 @@ fn poll_fut(st: &mut St, i: usize) {
   st.futs[i].wf.flag.store(false, Ordering::SeqCst);
   // sometimes re-poll with a fresh waker object (C06: re-polls with a different waker)
   if st.rng.random_range(0..100) < 15 {
-    st.futs[i].wf = Arc::new(WakeFlag { o, flag: AtomicBool::new(false) });
+    st.futs[i].wf.stale.store(true, Ordering::SeqCst);
+    st.futs[i].wf = WakeFlag::new(o);
   }
   let waker = Waker::from(st.futs[i].wf.clone());
   let mut cx = Context::from_waker(&waker);
